@@ -2,36 +2,42 @@ import TlsModel.Proto
 import TlsModel.Order
 /-
   Driver for C06.
-    run <cfg> <tok> ...      -> <status> acc=<n> accdone=<n> del=<n> ep=<n> warn=<n> hs=<0|1> st=<state> steps=<codes>
+    run <cfg> <tok> ...      -> <status> acc=<n> accdone=<n> del=<n> ep=<n> warn=<n> hs=<0|1> out=<n> st=<state> steps=<codes>
          status: complete | waiting | abort@<i>:<alert> | closed@<i>
          codes (one per token): N accepted, X accepted-then-abort, I ignored, W warning sent,
-                                D data delivered, P post-handshake message, A abort, C closed by peer alert, - not read
+                                D data delivered, P post-handshake message, B fragment buffered,
+                                L local action, A abort, C closed by peer alert, - not read
     accepts <cfg> <tok> ...  -> true|false   (handshake completes exactly on the last token)
     allowed <cfg> <kind> ... -> true|false   (RFC grammar)
+    postallowed <cfg> <n> <tok> ... -> true|false   (post-handshake grammar, n requests outstanding)
     valid <cfg>              -> true|false
     hsstart <cfg> <tok> ...  -> ok|error     (_handshakeStart after the run)
-  cfg = role,ver,kx,reqCert,clientCert,tickets,npn,hrr,resume,compCert,hb,compat ; tok = kind[:epoch][+]
+  cfg = role,ver,kx,reqCert,clientCert,tickets,npn,hrr,resume,compCert,hb,compat,keypair
+  tok = kind[:epoch][+][<|>]  |  !pha  |  !close
 -/
 open Tls Tls.Order
 
 def outCode : Out → Char
   | .next _ _ => 'N' | .acceptAbort _ => 'X' | .ignore => 'I' | .warn => 'W'
-  | .deliver => 'D' | .post => 'P' | .abort _ => 'A' | .peerClosed => 'C' | .acceptClosed => 'C'
+  | .deliver => 'D' | .post _ => 'P' | .phaStart _ => 'N' | .buffer _ => 'B'
+  | .abort _ => 'A' | .peerClosed => 'C' | .acceptClosed => 'C'
 
 /-- fold with a log: (run, index of the token that killed the connection, codes) -/
-def runLog (c : Cfg) (ms : List Msg) : Run × Option Nat × List Char :=
-  let rec go (r : Run) (i : Nat) (dead : Option Nat) (acc : List Char) : List Msg → Run × Option Nat × List Char
+def runLog (c : Cfg) (es : List Ev) : Run × Option Nat × List Char :=
+  let rec go (r : Run) (i : Nat) (dead : Option Nat) (acc : List Char) : List Ev → Run × Option Nat × List Char
     | [] => (r, dead, acc.reverse)
-    | m :: ms =>
-      if r.st == .dead then go r (i + 1) dead ('-' :: acc) ms
+    | e :: es =>
+      if r.st == .dead then go r (i + 1) dead ('-' :: acc) es
       else
-        let o := step c r.st r.epoch r.recsInEpoch m
-        let r' := feed c r m
-        go r' (i + 1) (if r'.st == .dead then some i else dead) (outCode o :: acc) ms
-  go (start c) 0 none [] ms
+        let code := match e with
+          | .msg m => outCode (step c r m)
+          | _ => 'L'
+        let r' := feedEv c r e
+        go r' (i + 1) (if r'.st == .dead then some i else dead) (code :: acc) es
+  go (start c) 0 none [] es
 
-def showRun (c : Cfg) (ms : List Msg) : String :=
-  let (r, dead, codes) := runLog c ms
+def showRun (c : Cfg) (es : List Ev) : String :=
+  let (r, dead, codes) := runLog c es
   let status :=
     match dead with
     | some i =>
@@ -40,13 +46,15 @@ def showRun (c : Cfg) (ms : List Msg) : String :=
        | none => s!"closed@{i}")
     | none => if r.hsDone then "complete" else "waiting"
   let codeStr := if codes.isEmpty then "." else String.ofList codes
-  s!"{status} acc={r.acc} accdone={r.accAtDone} del={r.delivered} ep={r.epoch} warn={r.warns} hs={if r.hsDone then 1 else 0} st={r.st.name} steps={codeStr}"
+  s!"{status} acc={r.acc} accdone={r.accAtDone} del={r.delivered} ep={r.epoch} warn={r.warns} hs={if r.hsDone then 1 else 0} out={r.outstanding} st={r.st.name} steps={codeStr}"
+
+def msgsOf (es : List Ev) : List Msg := es.filterMap fun | .msg m => some m | _ => none
 
 def handle : List String → Option String
   | "run" :: cfg :: toks => do
     let c ← Cfg.ofString cfg
-    let ms ← toks.mapM Msg.ofString
-    some (showRun c ms)
+    let es ← toks.mapM Ev.ofString
+    some (showRun c es)
   | "accepts" :: cfg :: toks => do
     let c ← Cfg.ofString cfg
     let ms ← toks.mapM Msg.ofString
@@ -55,13 +63,18 @@ def handle : List String → Option String
     let c ← Cfg.ofString cfg
     let ks ← ks.mapM MsgKind.ofName
     some (boolOut (allowed c ks))
+  | "postallowed" :: cfg :: n :: toks => do
+    let c ← Cfg.ofString cfg
+    let n ← n.toNat?
+    let es ← toks.mapM Ev.ofString
+    some (boolOut (postAllowed c n es))
   | ["valid", cfg] => do
     let c ← Cfg.ofString cfg
     some (boolOut c.valid)
   | "hsstart" :: cfg :: toks => do
     let c ← Cfg.ofString cfg
-    let ms ← toks.mapM Msg.ofString
-    match handshakeStart (run c (start c) ms) with
+    let es ← toks.mapM Ev.ofString
+    match handshakeStart (runEv c (start c) es) with
     | .ok _ => some "ok"
     | .error _ => some "error"
   | _ => none
